@@ -17,7 +17,9 @@ CLAIMED = {
             'which class is built at solver construction are frozen afterwards, pipe mode reports input ending inside a command, parser text is tested for null before it is echoed; '
             'printf-style calls match their arguments; AST shape: from the bison grammar (read on every run) the node types that can come without children and the child types of '
             'every node type, and in the interpreter every dereference of the children of a node that can be such a type sits under a test of the pointer; the arity gate '
-            '(PtStore::lookupSymbol) indexes its argument list only under a size test; the signature check of defined functions throws exactly on a count or sort mismatch (abstract evaluation). '
+            '(PtStore::lookupSymbol) indexes its argument list only under a size test; the signature check of defined functions throws exactly on a count or sort mismatch (abstract evaluation); '
+            'every exclusive start condition of the flex specification covers every character and end of input; a term that does not parse is reported by every caller of parseTerm; '
+            'sort arity is compared before a sort is built; pipe mode reports text left outside any command at end of input. '
             'Decides these structural clauses of the property, not memory safety in general or promptness.',
             'static analysis: interprocedural exception-escape fixpoint + AST call-site rules + path-sensitive size-lower-bound walk + grammar-derived AST-shape typing + abstract evaluation (LibTooling facts)',
             'library throw table; allocation failure excluded'),
